@@ -34,7 +34,7 @@ _ALL = {
     "C08": {"suites": ["r-pair", "r-hostile", "r-server"], "assumptions": [HONEST, COUNTERS]},
     "C09": {"suites": R_ALL, "assumptions": [HONEST, MISUSE]},
     "C10": {"suites": ["n-world"], "assumptions": ["max_clients is not lowered at run time for the bound"]},
-    "C11": {"suites": ["r-server", "r-hostile"], "assumptions": [MISUSE]},
+    "C11": {"suites": ["r-server", "r-hostile", "t-udp"], "assumptions": [MISUSE]},
     "C12": {"suites": ["r-server", "r-pair", "r-hostile", "t-udp"], "assumptions": [MISUSE]},
     "C13": {"suites": ["r-codec", "r-pair", "r-hostile", "r-server", "n-codec", "n-world"], "assumptions": [COUNTERS]},
     "C14": {"suites": ["r-pair", "r-server"], "assumptions": [MISUSE]},
